@@ -28,7 +28,6 @@ Qed.
 Lemma rd_bytes_slice z p n : 0 <= p -> 0 <= n -> p + n <= zlen z -> rd_bytes z p n = Ok (zslice p (p + n) z).
 Proof. intros. unfold rd_bytes. replace ((p <? 0) || (n <? 0) || (zlen z <? p + n)) with false by lia. reflexivity. Qed.
 
-Definition adv (m : mode) (pos q : Z) : Z := match m with Random => pos | Stream => q end.
 Lemma rd_at_ok m r pos p n b : r p n = Ok b -> pos <= p -> rd_at m r pos p n = Ok (b, adv m pos (p + n)).
 Proof.
   intros H Hp. destruct m; cbn [rd_at adv]; [now rewrite H|].
@@ -94,16 +93,6 @@ Lemma sp_lfh_elen m : zlen (sp_lextra m) < 65536 -> fld lfh_off_ExtraLen lfh_w_E
 Proof. intros H. lfh_field 10%nat. apply Z.mod_small. pose proof (zlen_nonneg (sp_lextra m)). lia. Qed.
 
 (* ------------------------------------------------------------------ descriptors *)
-(* exactly when relic's inference reads a 24-byte descriptor as 24 bytes *)
-Definition dd24_ok (csize usize : Z) : bool :=
-  (usize >=? 4294967295) || negb ((csize / 4294967296) mod 4294967296 =? usize mod 4294967296).
-Definition desc_ok (k : desc_kind) (csize usize : Z) : Prop :=
-  match k with
-  | DNone => True
-  | D16 => 0 <= usize < 4294967295 /\ csize < 4294967296
-  | D24 => 0 <= usize < 2 ^ 64 /\ csize < 2 ^ 63 /\ dd24_ok csize usize = true
-  | D12 | D20 => False
-  end.
 Lemma dd24_ok_small csize usize : 0 <= csize < 4294967296 -> 0 < usize -> dd24_ok csize usize = true.
 Proof.
   intros Hc Hu. unfold dd24_ok. rewrite Z.div_small by lia. rewrite Z.mod_0_l by lia.
@@ -125,12 +114,7 @@ Proof.
   apply ztake_exact_n. rewrite !zlen_app, !le_enc_zlen. reflexivity.
 Qed.
 
-Definition sized_of (m : smember) : sized :=
-  mkSized (zlen (sp_local m)) (zlen (sp_desc m)) (m_crc m) (30 + zlen (m_name m) + zlen (sp_lextra m)).
 
-Definition local_ok (m : smember) : Prop :=
-  zlen (m_name m) < 65536 /\ zlen (sp_lextra m) < 65536 /\ Z.land (m_flags m) 8 = 0 /\
-  0 <= m_crc m < 4294967296 /\ desc_ok (m_desc m) (sp_csize m) (m_usize m).
 
 Lemma sp_local_len m : zlen (sp_local m) = 30 + zlen (m_name m) + zlen (sp_lextra m) + sp_csize m + zlen (sp_desc m).
 Proof. unfold sp_local. rewrite !zlen_app, sp_lfh_len. unfold sp_csize. lia. Qed.
